@@ -7,7 +7,9 @@ from wire import go_float_str, from_wire
 PID = "C13"
 LITS = ["", "a", " ", "-", "}", ":", "x}y", "é", "日本", "}}", ": ", ".", ",", "'", "\\", "#", "a b"]
 ENVV = {"HOME": "/home/u", "NUM": "42", "BOOLISH": "true", "NULLISH": "null", "FLT": "1.5", "SP": "a b", "EMPTY": "",
-        "BRACE": "{x}", "DOLLAR": "$5", "UNI": "é", "EQ": "host=db port=5432", "B64": "dGVzdA==", "EQLEAD": "=x", "REFTXT": "{a}|{$env:HOME}"}
+        "BRACE": "{x}", "DOLLAR": "$5", "UNI": "é", "EQ": "host=db port=5432", "B64": "dGVzdA==", "EQLEAD": "=x", "REFTXT": "{a}|{$env:HOME}",
+        # values with white space at the edges: exact substitution keeps it, in values and in keys
+        "LEAD": " lead", "TRAIL": "trail ", "WS": "\t both \n", "NL": "line\n"}
 
 
 def fmt(v):
@@ -51,7 +53,21 @@ def gen_case(rng):
                 else:
                     segs.append("{" + rng.choice(["nosuch", "$env:UNSET", "m.zz", "$repeat"]) + "}")
                     ok = False
-        doc["t"] = "$\"" + "".join(segs) + "\""
+        tmpl = "$\"" + "".join(segs) + "\""
+        if rng.random() < 0.25 and tmpl not in doc:
+            # the template in KEY position: the key of the output is the substituted text, exactly
+            doc2 = dict(doc)
+            doc2[tmpl] = 1
+            c = chain_case([doc2], env=ENVV, tail=("outdocs",))
+            if not ok:
+                c["expect"] = ("err", None)
+            elif expect in doc or expect.startswith("$"):
+                c["expect"] = None
+            else:
+                c["expect"] = ("ok", dict(doc, **{expect: 1}))
+            c["noshrink"] = True
+            return c
+        doc["t"] = tmpl
         c = chain_case([doc], env=ENVV, tail=("outdocs",))
         c["expect"] = ("ok", dict(doc, t=expect)) if ok else ("err", None)
         c["noshrink"] = True      # the expectation belongs to this exact document
